@@ -69,7 +69,7 @@ def main():
                 race = "-race" if " -race" in head else ""
                 run = f"go test -vet=off -count=1 {tags} {race} -run '{pat}' ."
                 rcw, ow = sh(run, cwd=os.path.join(wt, pkgdir), timeout=900)
-                sh("git checkout -- . ", cwd=wt)  # the stash is shared by all worktrees of a repository: never used
+                sh("git checkout -- . && git clean -fdq", cwd=wt)  # also files the change added; the stash (shared by all worktrees) is never used
                 shutil.copy(d, os.path.join(wt, pkgdir, name))
                 rco, oo = sh(run, cwd=os.path.join(wt, pkgdir), timeout=900)
             res["demo_with_change"] = "FAIL" if rcw != 0 else "pass"
